@@ -272,6 +272,7 @@ def check_attr(T, cls, d, acc, grid):
     ident = "%s/@%s" % (tT, d["attr"])
     if hasattr(st, "__members__"):
         grid = list(grid) + [(mb, "own-enum-member") for mb in st if mb.xml_value] + foreign_members(st)
+    rejected_vals, good = [], None
     for v, vcls in grid:
         el = oxml_parser.makeelement(T)
         before = dict(el.attrib)
@@ -283,6 +284,7 @@ def check_attr(T, cls, d, acc, grid):
             setattr(el, d["prop"], v)
         except (TypeError, ValueError) as e:
             acc.count("rejected_TypeError_or_ValueError")
+            rejected_vals.append(v)
             if dict(el.attrib) != before:
                 acc.violation(
                     "rejected-but-written:%s" % stname,
@@ -303,6 +305,8 @@ def check_attr(T, cls, d, acc, grid):
         if wrote is None:
             acc.count("accepted_as_default_attribute_removed")
             continue
+        if good is None and isinstance(wrote, str):
+            good = wrote
         if not isinstance(wrote, str):
             acc.violation("wrote-non-string:%s" % stname, "%s wrote %r" % (ident, wrote), {"T": T, "prop": d["prop"], "value": repr(v)})
             continue
@@ -346,6 +350,24 @@ def check_attr(T, cls, d, acc, grid):
                 "readback-outside-quantum:%s" % stname,
                 "%s = %s wrote %r, read back %r" % (ident, _short(v), wrote, got),
                 {"T": T, "prop": d["prop"], "value": repr(v)},
+            )
+    # ---- "rejected before anything is written", on an attribute that already HOLDS a value: it must still hold it afterwards
+    for v in rejected_vals if good is not None else ():
+        el = oxml_parser.makeelement(T)
+        el.set(d["clark"], good)
+        before = dict(el.attrib)
+        try:
+            setattr(el, d["prop"], v)
+        except Exception:  # noqa  (which exception: judged above, on the fresh element)
+            pass
+        else:
+            continue
+        acc.count("rejections_on_an_attribute_holding_a_value")
+        if dict(el.attrib) != before:
+            acc.violation(
+                "rejected-but-changed-existing:%s" % stname,
+                "%s held %r; = %s was rejected but left attributes %r" % (ident, good, _short(v), dict(el.attrib)),
+                {"T": T, "prop": d["prop"], "value": repr(v), "held": good},
             )
     # ---- reading: every schema-valid lexical alternative
     m = xsdkit.model()
